@@ -13,7 +13,7 @@ def I(name, props, call, be=BOTH, tier="quick", unwind=2, unwindset=None, timeou
       cost=1, **kw):
     d = dict(name=name, props=props if isinstance(props, list) else [props], call=call, be=be, tier=tier,
              unwind=unwind, unwindset=unwindset or {}, timeout=timeout, bounds=bounds, cost=cost)
-    d.update(kw)
+    d.update({k: v for k, v in kw.items() if not (k == "be_quick" and v is None)})
     return d
 
 
@@ -139,7 +139,8 @@ def instances():
     T("c06_rehash_ct8_b1", "c06::rehash_layout_ct8::<16>(0x0200, 0xFDF3, 0)", 16, n2=16, be=G8, items=1, timeout=1800, mem_gb=20, props=("C06", "C13", "C01", "C05"), cost=50)
     T("c06_rehash_ct8_b1t", "c06::rehash_layout_ct8::<16>(0x0001, 0x3FFE, 1)", 16, n2=16, be=G8, items=1, timeout=7200, mem_gb=20, props=("C06", "C13"), cost=50, tier="thorough")
     T("c06_rehash_ct8_b1_try", "c06::rehash_layout_ct8_try::<16>(0x0200, 0xFDF3, 0)", 16, n2=16, be=G8, items=1, timeout=1800, mem_gb=20, props=("C06", "C12"), cost=50)
-    T("c06_rehash_ct8_c2", "c06::rehash_layout_ct8::<16>(0x0202, 0xFDF1, 0)", 16, n2=16, be=G8, items=2, timeout=3000, mem_gb=24, props=("C06", "C05", "C01"), cost=100)
+    # 2 elements (swap with a not-yet-rehashed element): ~15 min, over the 900 s budget of a quick check -> thorough tier
+    T("c06_rehash_ct8_c2", "c06::rehash_layout_ct8::<16>(0x0202, 0xFDF1, 0)", 16, n2=16, be=G8, items=2, timeout=5400, mem_gb=24, props=("C06", "C05", "C01", "C09", "C15"), cost=100, tier="thorough")
     T("c06_rehash_ct8_a", "c06::rehash_layout_ct8::<16>(0x0302, 0xF0FD & !0x0302, 0)", 16, be=G8, items=3, timeout=10800, mem_gb=44, tier="thorough", cost=100)
     T("c06_shrink_n8_to4", "c06::shrink_to::<8, 4>(2, 0, 0)", 8, n2=4, items=2, be_quick=G8)
     T("c06_shrink_n8_empty", "c06::shrink_to::<8, 1>(0, 0, 0)", 8, items=0)
@@ -159,7 +160,7 @@ def instances():
     for n, be, tier in ((4, BOTH, "quick"), (8, G8, "quick"), (16, G8, "quick"), (16, S16, "thorough"), (32, S16, "thorough"), (32, G8, "thorough"), (64, S16, "thorough")):
         sfx = "" if be == BOTH else ("_" + be[0])
         for mode, mn in ((0, "next"), (1, "fold"), (2, "clone")):
-            T("c09_iter_%s_n%d%s" % (mn, n, sfx), "c09::table_iter::<%d>(%d)" % (n, mode), n, be=be, tier=tier, props=C9, covers="some", timeout=2400 if tier == "quick" else 14400, mem_gb=20 if tier == "quick" else 30,
+            T("c09_iter_%s_n%d%s" % (mn, n, sfx), "c09::table_iter::<%d>(%d)" % (n, mode), n, be=be, tier=tier if not (n == 16 and mode == 0) else "thorough", props=C9, covers="some", timeout=2400 if tier == "quick" else 14400, mem_gb=20 if tier == "quick" else 30,
               share_quick=("C18", "C02") if (n, mode) in ((4, 0), (4, 1)) else ())
     T("c09_iter_mut_n8", "c09::table_iter_mut::<8>()", 8, props=C9)
     T("c09_iter_mut_n16", "c09::table_iter_mut::<16>()", 16, props=C9, be=G8, timeout=2400, mem_gb=20)
@@ -174,7 +175,7 @@ def instances():
         T("c09_set_%s_n8" % wn, "c09::set_iters::<8>(%d)" % w, 8, props=C9, be=G8)
     # ------------------------------------------------------------------ C01 HashMap steps
     C1 = ("C01", "C18")
-    T("c01_lookup_n8", "c01::lookup::<8>()", 8, props=C1, share_quick=('C18',))
+    T("c01_lookup_n8", "c01::lookup::<8>()", 8, props=C1, share_quick=('C18',), be_quick=G8)
     T("c01_lookup_n16", "c01::lookup::<16>()", 16, be=G8, props=C1, tier="thorough", timeout=7200)
     T("c01_lookup_n4", "c01::lookup::<4>()", 4, be=G8, props=C1)
     T("c01_insert_n4", "c01::insert::<4, 4>(2, 0)", 4, items=2, be=G8, props=C1)
@@ -194,7 +195,7 @@ def instances():
           share_quick=("C14",) if form == 2 else (), tier="quick" if form == 2 else "thorough", timeout=900 if form == 2 else 10800, mem_gb=14 if form == 2 else 40)
     T("c01_entry_ref_n4_full", "c01::entry::<4, 8>(3, 0, 2)", 4, n2=8, items=3, be=G8, props=("C01", "C14"), covers="some", share_quick=("C14",))
     T("c01_entry_or_insert_n4_full", "c01::entry::<4, 8>(3, 0, 0)", 4, n2=8, items=3, be=G8, props=("C01", "C14"), covers="some", tier="thorough", timeout=10800, mem_gb=40)
-    T("c01_retain_n8", "c01::retain::<8>()", 8, props=("C01", "C10", "C18"), share_quick=('C18', 'C10'))
+    T("c01_retain_n8", "c01::retain::<8>()", 8, props=("C01", "C10", "C18"), share_quick=('C18', 'C10'), be_quick=G8)
     T("c01_retain_n16", "c01::retain::<16>()", 16, be=G8, props=("C01", "C10"), timeout=10800, tier="thorough", mem_gb=30)
     T("c01_clear_n8", "c01::clear_reserve_shrink::<8, 8>(SYM, SYM, 0, 0)", 8, be=G8, props=C1)
     T("c01_reserve_n8", "c01::clear_reserve_shrink::<8, 16>(2, 0, 1, 6)", 8, n2=16, items=2, be=G8, props=C1)
@@ -204,7 +205,7 @@ def instances():
     T("c01_base_case", "c01::base_case()", 4, n2=4, items=1, be=G8, props=C1)
     # ------------------------------------------------------------------ C10 retain / extract_if / drain
     C10 = ("C10", "C18")
-    T("c10_retain_n8", "c10::table_retain::<8>()", 8, props=C10, covers="some")
+    T("c10_retain_n8", "c10::table_retain::<8>()", 8, props=C10, covers="some", be_quick=G8)
     T("c10_retain_n16", "c10::table_retain::<16>()", 16, be=G8, props=C10, timeout=14400, tier="thorough", mem_gb=44)
     T("c10_retain_n32s", "c10::table_retain::<32>()", 32, be=S16, props=C10, tier="thorough", timeout=3600)
     T("c10_extract_if_n4", "c10::table_extract_if::<4>()", 4, props=C10, covers="some", be_quick=G8)
@@ -287,7 +288,8 @@ def instances():
     T("c13_growth_bound_all", "c08::growth_bound_all()", 4, props=("C13", "C08"), bounds="all tables 2^2..2^55 buckets, all item counts, all element sizes")
     # ------------------------------------------------------------------ C05 broken Hash/Eq
     for op, on in enumerate(("find", "remove", "insert", "entry", "retain", "iter_hash")):
-        T("c05_%s_n8" % on, "c05::chaos::<8, 8>(3, 0, %d, 0)" % op, 8, items=3, props=("C05", "C02"), be=G8 if on in ("entry", "retain") else BOTH)
+        T("c05_%s_n8" % on, "c05::chaos::<8, 8>(3, 0, %d, 0)" % op, 8, items=3, props=("C05", "C02"), be=G8 if on in ("entry", "retain") else BOTH,
+          be_quick=G8 if on in ("iter_hash", "remove") else None)
     T("c05_insert_n4_grow", "c05::chaos::<4, 8>(3, 0, 2, 0)", 4, n2=8, items=3, be=G8, props=("C05", "C02"))
     T("c05_reserve_n8_grow", "c05::chaos::<8, 16>(2, 0, 6, 6)", 8, n2=16, items=2, be=G8, props=("C05", "C02"))
     T("c05_find_n16", "c05::chaos::<16, 16>(4, 6, 0, 0)", 16, items=4, be=G8, props=("C05",))
@@ -344,12 +346,12 @@ def instances():
     T("c07_elem_replace_n4_full", "c07::elem_ops::<4, 8>(3, 0, 1)", 4, n2=8, items=3, be=G8, props=("C07",))
     # ------------------------------------------------------------------ C11 clone / clone_from / ==
     T("c11_clone_n8", "c11::clone_step::<8>(true)", 8, props=("C11", "C03"), be_quick=G8)
-    T("c11_clone_n8_src_mut", "c11::clone_step::<8>(false)", 8, be=G8, props=("C11", "C03"))
+    T("c11_clone_n8_src_mut", "c11::clone_step::<8>(false)", 8, be=G8, props=("C11", "C03"), tier="thorough")
     T("c11_clone_n16_counts", "c11::clone_counts::<16>(3, 6)", 16, items=3, be=G8, props=("C11", "C08"), timeout=1800)
     T("c11_clone_n16", "c11::clone_step::<16>(true)", 16, be=G8, props=("C11",), timeout=10800, tier="thorough", mem_gb=30)
     for (nt, ns) in ((8, 8), (8, 4), (4, 8), (8, 1), (16, 8)):
         T("c11_clone_from_%d_%d" % (nt, ns), "c11::clone_from_step::<%d, %d>()" % (nt, ns), max(nt, ns), be=G8, props=("C11", "C03"),
-          timeout=1800 if nt < 16 else 10800, tier="quick" if nt < 16 else "thorough", mem_gb=14 if nt < 16 else 30)
+          timeout=1800 if nt < 16 else 10800, tier="quick" if (nt < 16 and (nt, ns) != (8, 8)) else "thorough", mem_gb=14 if nt < 16 else 30)
     # 16-bucket target whose capacity() (1 element, 7 tombstones) equals that of the 8-bucket source
     T("c11_clone_from_16t_8", "c11::clone_from_counts::<16, 8>(1, 7, 2)", 16, n2=8, items=2, be=G8, props=("C11", "C03"), timeout=1800)
     T("c11_map_eq_n4_n4", "c11::map_eq::<4, 4>()", 4, be=G8, props=("C11",), covers="some", unwind=7, timeout=1500)
@@ -357,7 +359,7 @@ def instances():
     T("c11_map_eq_n8_n8", "c11::map_eq::<8, 8>()", 8, be=S16, props=("C11",), covers="some", tier="thorough", timeout=10800, mem_gb=30)
     T("c11_map_eq_n16_n8", "c11::map_eq::<16, 8>()", 16, be=G8, props=("C11",), covers="some", timeout=14400, tier="thorough", mem_gb=40)
     # ------------------------------------------------------------------ C14 entry APIs
-    T("c14_raw_entry_ro_n8", "c14::raw_entry_ro::<8>()", 8, props=("C14",))
+    T("c14_raw_entry_ro_n8", "c14::raw_entry_ro::<8>()", 8, props=("C14",), be_quick=G8)
     for form, fn_ in enumerate(("or_insert", "nocheck_insert", "from_hash_insert_hashed", "insert_with_hasher", "remove_entry", "insert_key", "and_replace", "vacant_dropped")):
         T("c14_raw_mut_%s_n8" % fn_, "c14::raw_entry_mut::<8, 8>(4, 0, %d)" % form, 8, items=4, be=G8, props=("C14",))
     T("c14_raw_mut_or_insert_n4_full", "c14::raw_entry_mut::<4, 8>(3, 0, 0)", 4, n2=8, items=3, be=G8, props=("C14",), covers="some")
@@ -397,8 +399,8 @@ def instances():
     T("c20_map_plain_1", "c20::map_entries_plain::<1>()", 4, items=1, be=G8, props=("C20",), unwind=4)
     T("c20_map_plain_2", "c20::map_entries_plain::<2>()", 4, items=2, be=G8, props=("C20",), unwind=5)
     T("c20_map_plain_3", "c20::map_entries_plain::<3>()", 4, items=3, be=G8, props=("C20",), timeout=10800, tier="thorough", unwind=6, mem_gb=44)
-    T("c20_set_in_place_n8_1", "c20::set_in_place::<8, 1>()", 8, be=G8, props=("C20",), covers="some")
-    T("c20_set_in_place_n8_2", "c20::set_in_place::<8, 2>()", 8, be=G8, props=("C20",), covers="some", timeout=1800, tier="thorough")
+    T("c20_set_in_place_n8_1", "c20::set_in_place::<8, 1>(2)", 8, items=2, be=G8, props=("C20",), unwind=11)
+    T("c20_set_in_place_n8_2", "c20::set_in_place::<8, 2>(3)", 8, items=3, be=G8, props=("C20",), timeout=7200, tier="thorough", unwind=11, mem_gb=30)
     T("c20_serialize_map_n8", "c20::serialize_emits_all::<8>(false)", 8, props=("C20",))
     T("c20_serialize_set_n8", "c20::serialize_emits_all::<8>(true)", 8, be=G8, props=("C20",))
     # ------------------------------------------------------------------ evidence shared between properties (quick tier)
@@ -409,14 +411,14 @@ def instances():
                 "c06_base_cap14", "c03_grow_n8", "c03_shrink_n8", "c03_no_block_when_unused", "c06_shrink_n8_to4",
                 "c14_map_occ_replace_entry_with_n8", "c06_reserve_n4_cross"],
         "C12": ["c17_layout_all", "c06_rehash_ct8_b1_try"],
-        "C03": ["c04_clone_from_panic_8_4", "c11_clone_n8", "c11_clone_from_8_4", "c19_par_drain_producer_n8", "c04_drop_panic_retain_n8",
+        "C03": ["c04_clone_from_panic_4_4", "c11_clone_from_8_4", "c19_par_drain_producer_n8", "c04_drop_panic_retain_n8",
                 "c04_rehash_hook_drop_n4", "c04_drop_panic_clear_n8"],
-        "C02": ["c04_hasher_grow_nodrop_n8", "c05_insert_n8", "c05_remove_n8", "c03_drop_n8", "c17_table_layout_types",
+        "C02": ["c04_hasher_grow_nodrop_n8", "c05_insert_n8", "c03_drop_n8", "c17_table_layout_types",
                 "c04_rehash_hook_drop_n4", "c04_rehash_hook_nodrop_n4", "c04_drop_panic_drain_n8"],
-        "C11": ["c07_pred_eq_n4_n4", "c04_clone_from_panic_8_4"],
+        "C11": ["c07_pred_eq_n4_n4", "c04_clone_from_panic_4_4"],
         "C01": ["c06_rehash_ct8_b1", "c14_map_occ_remove_n8", "c06_base_cap3", "c14_map_occ_replace_entry_with_n8", "c14_map_occ_and_replace_entry_with_n8",
                 "c14_rustc_or_insert_n4_full", "c14_raw_mut_or_insert_n8"],
-        "C05": ["c15_table_sloppy_n8_k2", "c06_rehash_ct8_c2", "c14_map_occ_replace_entry_with_n8"],
+        "C05": ["c15_table_sloppy_n8_k2", "c14_map_occ_replace_entry_with_n8"],
         "C09": ["c04_rehash_hook_drop_n4", "c02_zst_iterate_n8"],
         "C10": ["c02_zst_remove_n8", "c02_zst_retain_n8", "c02_zst_extract_if_n8"],
         "C14": ["c04_replace_entry_validity_n8", "c07_elem_entry_n8"],
